@@ -648,9 +648,9 @@ func wrPre(rng *Rng, arch byte) string {
 }
 
 func genEncWriters(emit func(string), tier string, rng *Rng) {
-	n := 2500
+	n := 8000
 	if tier == "thorough" {
-		n = 60000
+		n = 250000
 	}
 	for it := 0; it < n; it++ {
 		g := wrGenOpts(rng)
@@ -726,9 +726,9 @@ func wrCraftStale(rng *Rng) []wFile {
 }
 
 func genEncFaults(emit func(string), tier string, rng *Rng) {
-	n := 260
+	n := 1200
 	if tier == "thorough" {
-		n = 6000
+		n = 30000
 	}
 	// directed: repetition of a completed sequence inside an uncompleted one (stream and batch, every kind)
 	if files := wrCraftStale(rng); files != nil {
